@@ -484,7 +484,7 @@ SPECS["metrics/collector.rs::Drop for MessageProcessingGuard::drop"] = dict(by_v
           "final(w).current_actor() == old(w).current_actor() && final(w).lock_held() == old(w).lock_held() && final(w).own_strong() == old(w).own_strong()"),
     ])
 SPECS["actor_ref.rs::ActorRef::metrics_collector"] = dict(pure=True, ensures=[
-    C("actor_ref.metrics_collector.is_own_collector", "C20", "*r == *self.metrics")])
+    C("actor_ref.metrics_collector.is_own_collector", "C20", "r.cid() == self.metrics.cid()")])
 
 
 # ------------------------------------------------------------------ metrics handles: every derived handle shares the collector (C20)
@@ -559,6 +559,9 @@ FUNCTION_PROPERTIES = {
 }
 
 FEATURE_INDEPENDENT = {"C01", "C02", "C03", "C04", "C05", "C06", "C07", "C08", "C09", "C10", "C11", "C13", "C16", "C17"}
+
+# properties part of whose code is not under contract: fixed bounded scenarios stand in (labelled bounded)
+ALWAYS_STAND_IN = {"C17": ["blocking_timeout", "blocking_api"]}
 
 NOT_APPLICABLE = {
     "C19": "proc-macro token generation (syn/quote) is outside every installed deductive verifier; the runtime half "
